@@ -17,6 +17,7 @@ pass, assignments, expression statements, del, global, import) the structured
 enumeration is exact; anything else raises `Unmodelled` (-> exit 2).
 """
 import ast
+import re
 from fractions import Fraction
 
 from .source import AnalysisError, src
@@ -215,6 +216,35 @@ def _show_gens(gens):
 # boolean normal form
 # ----------------------------------------------------------------------
 
+def fmt_key(ka, kb):
+    """'text %s' % args with constant string arguments of %s fields folded
+    into the text ('%s %s' % ('group', k) == 'group %s' % k)."""
+    args = list(kb[1]) if kb[0] == 'tuple' else [kb]
+    specs = list(re.finditer(r'%(?:%|[-#0 +]*\d*(?:\.\d+)?[sdrgfeExXi])',
+                             ka[1]))
+    fields = [m for m in specs if m.group() != '%%']
+    if len(fields) != len(args) or '%(' in ka[1] or '*' in ka[1]:
+        return ('fmt', ka, kb)
+    out, rest, pos = '', [], 0
+    changed = False
+    for m, a in zip(fields, args):
+        out += ka[1][pos:m.start()]
+        pos = m.end()
+        if m.group() == '%s' and a[0] == 'const' and isinstance(a[1], str) \
+                and '%' not in a[1]:
+            out += a[1]
+            changed = True
+        else:
+            out += m.group()
+            rest.append(a)
+    out += ka[1][pos:]
+    if not rest:
+        return ('const', out.replace('%%', '%'))
+    # one argument: the same whether written `% x` or `% (x,)`
+    return ('fmt', ('const', out),
+            rest[0] if len(rest) == 1 else ('tuple', tuple(rest)))
+
+
 def listlike(k):
     """A value known to be a list: literal, list comprehension, or a
     concatenation of such."""
@@ -244,8 +274,7 @@ def strcat(a, b):
     if is_str(b) and a[0] == 'strcat' and is_str(a[2]):
         return strcat(a[1], ('const', a[2][1] + b[1]))
     if is_str(a) and a[1] == '':
-        return b if b[0] in ('strcat', 'const', 'fmt', 'fstr') else (
-            'strcat', a, b)
+        return b            # '' + x is x (x is a string, or it raises)
     return ('strcat', a, b)
 
 
@@ -693,7 +722,7 @@ class Evaluator(object):
                                        'tuple', 'strcat') and not (
             kk[0] == 'const' and isinstance(kk[1], bool))
         if op == '%' and ka[0] == 'const' and isinstance(ka[1], str):
-            return ('fmt', ka, kb)
+            return fmt_key(ka, kb)
         if op in ('+', '*') and (stringy(ka) or stringy(kb)):
             if op == '+':
                 return strcat(ka, kb)
@@ -778,9 +807,13 @@ class Evaluator(object):
     def _enumerable(self, node, st):
         """Elements of an iterable that is spelled out in the source:
         a literal tuple/list or range(<small constant>)."""
-        if isinstance(node, (ast.Tuple, ast.List)) and len(node.elts) <= 8 \
+        if isinstance(node, (ast.Tuple, ast.List)) and len(node.elts) <= 12 \
                 and not any(isinstance(e, ast.Starred) for e in node.elts):
             return list(node.elts)
+        if isinstance(node, ast.Constant) and isinstance(node.value, str) \
+                and 0 < len(node.value) <= 8:
+            return [ast.copy_location(ast.Constant(value=ch), node)
+                    for ch in node.value]
         if isinstance(node, ast.Call) and isinstance(node.func, ast.Name) \
                 and node.func.id == 'range' and 'range' not in st.env \
                 and not node.keywords and 1 <= len(node.args) <= 2:
@@ -971,6 +1004,8 @@ class Evaluator(object):
             fk, args, cname = ('name', 'str'), [fk[1]], 'str'
         if cname in ('tuple', 'list', 'dict') and not args and not kws:
             return (cname, ())
+        if cname == 'str' and not args and not kws:
+            return ('const', '')
         if cname == 'bool' and len(args) == 1 and not kws:
             return as_bool(args[0])
         if cname in ('set', 'frozenset') and len(args) == 1 and not kws \
@@ -1049,6 +1084,20 @@ class Evaluator(object):
         else:
             raise Unmodelled('loop target %s' % src(target))
 
+    def _items_iter(self, it_node, target):
+        """(mapping node, key target, value target) for
+        `for k, v in d.items()` -- the same as `for k in d` with v = d[k]."""
+        if isinstance(it_node, ast.Call) and isinstance(
+                it_node.func, ast.Attribute) and it_node.func.attr == 'items' \
+                and not it_node.args and not it_node.keywords and isinstance(
+                    target, (ast.Tuple, ast.List)) and len(target.elts) == 2:
+            return it_node.func.value, target.elts[0], target.elts[1]
+        if isinstance(it_node, ast.Call) and isinstance(
+                it_node.func, ast.Name) and it_node.func.id == 'list' \
+                and len(it_node.args) == 1 and not it_node.keywords:
+            return self._items_iter(it_node.args[0], target)
+        return None
+
     def _indexed_iter(self, it_node, target, st):
         """(xs node, index name, start, element target) for
         `enumerate(xs[, start])` with an (i, x) target and for
@@ -1101,6 +1150,18 @@ class Evaluator(object):
                 gens.extend(inner)
                 continue
             base = ('bv', self.depth)
+            items = self._items_iter(g.iter, g.target)
+            if items is not None:
+                mp, kt, vt = items
+                it = self.k(mp, st2)
+                self.depth += 1
+                self._bind_target_value(kt, base, st2)
+                self._bind_target_value(vt, ('sub', it, base), st2)
+                cl = set()
+                for c in g.ifs:
+                    cl |= lits_of(as_bool(self.k(c, st2)))
+                gens.append((base, it, tuple(sorted(cl, key=_sk))))
+                continue
             idx = self._indexed_iter(g.iter, g.target, st2)
             if idx is not None:
                 # enumerate(xs) / range(len(xs)): position and xs[position]
@@ -1390,6 +1451,7 @@ class Summarizer(Evaluator):
         self.appender_stack = []
         self.loop_assigned = []
         self.local_defs = {}
+        self.carried_lists = set()
 
     def summarize(self, func, env=None):
         st = State(env=dict(env or {}))
@@ -1617,6 +1679,9 @@ class Summarizer(Evaluator):
             return None
         loc, par = _locals_of(target)
         self.locals_, self.params_ = loc | set(extra), par
+        if closure is not None:
+            # a nested function sees its caller's locals
+            self.locals_ = self.locals_ | (set(saved[0]) - par)
         self.inline_stack.append(qual)
         try:
             try:
@@ -1762,10 +1827,10 @@ class Summarizer(Evaluator):
             name = c.func.value.id
             cur = st.env.get(name)
             if name in getattr(self, 'locals_', ()) and cur is not None \
-                    and listlike(key(cur)):
+                    and (listlike(key(cur))
+                         or key(cur) in self.carried_lists):
                 arg = self.k(c.args[0], st)
-                if not self.appender_stack or name in \
-                        self.loop_assigned[-1]:
+                if True:
                     # a list local to this function (or to this iteration)
                     # built piece by piece: keep its value, not the calls
                     if c.func.attr == 'append':
@@ -1955,7 +2020,7 @@ class Summarizer(Evaluator):
         for name, nodes in out.items():
             pv = pre.env.get(name)
             if len(nodes) == 1 and uses.get(name) == 1 and pv is not None \
-                    and listlike(key(pv)):
+                    and (listlike(key(pv)) or key(pv) in self.carried_lists):
                 names.add(name)
         return names
 
@@ -2005,6 +2070,7 @@ class Summarizer(Evaluator):
         attrs = set()
         sub_store = False
         sub_bases = []
+        list_names = set()
 
         def note(name, node):
             pos = (getattr(node, 'lineno', 0), getattr(node, 'col_offset', 0))
@@ -2015,14 +2081,36 @@ class Summarizer(Evaluator):
             while isinstance(e, (ast.Attribute, ast.Subscript)):
                 e = e.value
             return e.id if isinstance(e, ast.Name) else None
-        for node in ast.walk(ast.Module(body=body, type_ignores=[])):
+
+        # the body, and the bodies of the nested functions it calls (what
+        # they change through their closure is changed by the loop body);
+        # their effects are placed at the call site
+        scan = []
+        seen_defs = set()
+
+        def collect(nodes, site, hidden):
+            for node in nodes:
+                scan.append((node, site or node, hidden))
+                if isinstance(node, ast.Call) and isinstance(
+                        node.func, ast.Name) and node.func.id in \
+                        self.local_defs and node.func.id not in seen_defs:
+                    seen_defs.add(node.func.id)
+                    d = self.local_defs[node.func.id]
+                    loc, par = _locals_of(d)
+                    collect(list(ast.walk(ast.Module(
+                        body=d.body, type_ignores=[]))), site or node,
+                        hidden | loc | par)
+        collect(list(ast.walk(ast.Module(body=body, type_ignores=[]))),
+                None, frozenset())
+        for node, site, hidden in scan:
             if isinstance(node, ast.Name) and isinstance(
                     node.ctx, (ast.Store, ast.Del)):
-                note(node.id, node)
+                if node.id not in hidden:
+                    note(node.id, site)
             elif isinstance(node, (ast.Attribute, ast.Subscript)) \
                     and isinstance(node.ctx, (ast.Store, ast.Del)):
                 r = root(node)
-                if r is not None:
+                if r is not None and r not in hidden:
                     mutated.add(r)
                 if isinstance(node, ast.Attribute):
                     attrs.add(node.attr)
@@ -2034,7 +2122,18 @@ class Summarizer(Evaluator):
                     node.value.func, ast.Attribute):
                 # obj.method(...) as a statement: obj may change
                 r = root(node.value.func.value)
-                if r is not None:
+                fv = node.value.func.value
+                if isinstance(fv, ast.Name) and node.value.func.attr in (
+                        'append', 'extend') and fv.id in getattr(
+                        self, 'locals_', ()) and fv.id in body_st.env \
+                        and (listlike(key(body_st.env[fv.id])) or key(
+                            body_st.env[fv.id]) in self.carried_lists):
+                    # a list local to the function built piece by piece:
+                    # its value is carried from iteration to iteration
+                    if fv.id not in hidden:
+                        note(fv.id, site)
+                        list_names.add(fv.id)
+                elif r is not None and r not in hidden:
                     mutated.add(r)
                 f = node.value.func.value
                 if isinstance(f, ast.Attribute):
@@ -2068,6 +2167,8 @@ class Summarizer(Evaluator):
                     'import', 'importfrom', 'localfunc', 'bv'):
                 continue
             body_st.env[name] = ('carried', depth, n)
+            if name in list_names:
+                self.carried_lists.add(('carried', depth, n))
             n += 1
         # items stored in the body: forget what is known about the items of
         # those containers (of every container, if one cannot be named)
@@ -2090,6 +2191,58 @@ class Summarizer(Evaluator):
                     and hk[1][0] == 'idx' and (base_keys is None
                                                or hk[0] in base_keys):
                 del body_st.heap[hk]
+        return list_names
+
+    def _seq_accumulate(self, name, pre, start_env, fall_states, gens_key,
+                        path_lits):
+        """`acc = acc + [e]` / `acc += (e,)` / `text += piece` on one path
+        of the body, nothing on the others: the list / tuple / string built
+        by the equivalent comprehension or join."""
+        start = start_env.get(name)
+        if start is None:
+            return None
+        sk, prek = key(start), key(pre.env[name])
+        changing = []
+        for s, o in fall_states:
+            post = s.env.get(name)
+            if post is None:
+                return None
+            pk = key(post)
+            if pk == sk:
+                continue
+            parts = []
+            x = pk
+            while x[0] == 'strcat':         # left-associated chain
+                parts.append(x[2])
+                x = x[1]
+            parts.append(x)
+            parts.reverse()
+            if len(parts) >= 2 and parts[0] == sk and not any(
+                    mentions_any(q, [sk]) for q in parts[1:]):
+                piece = parts[1]
+                for q in parts[2:]:
+                    piece = strcat(piece, q)
+                changing.append((s, piece))
+            else:
+                return None
+        if len(changing) != 1:
+            return None
+        s, piece = changing[0]
+        conds = path_lits(s) if len(fall_states) > 1 else ()
+        base, it, _ = gens_key[0]
+        gens = ((base, it, conds),)
+        if piece[0] == 'list' and len(piece[1]) == 1 and listlike(prek):
+            return strcat(prek, ('comp', 'list', piece[1][0], gens))
+        if piece[0] == 'comp' and piece[1] == 'list' and listlike(prek):
+            # a comprehension appended per iteration: one nested comprehension
+            return strcat(prek, ('comp', 'list', piece[2], gens + piece[3]))
+        if piece[0] == 'tuple' and len(piece[1]) == 1 and prek[0] == 'tuple':
+            return strcat(prek, ('call', ('name', 'tuple'), ((
+                'comp', 'gen', piece[1][0], gens),), ()))
+        if prek[0] == 'const' and isinstance(prek[1], str):
+            return strcat(prek, ('call', ('attr', ('const', ''), 'join'), ((
+                'comp', 'gen', piece, gens),), ()))
+        return None
 
     def _flags(self, body, pre):
         """Names holding a boolean constant before the loop that the body
@@ -2158,7 +2311,7 @@ class Summarizer(Evaluator):
         appenders = self._appenders(body, pre) if is_for else set()
         dictb = self._dict_builders(body, pre) if is_for else set()
         flags = self._flags(body, pre)
-        self._havoc(body, body_st)
+        list_names = self._havoc(body, body_st)
         body_st0 = dict(body_st.env)
         self.appender_stack.append(appenders | dictb)
         self.loop_assigned.append(self._assigned_names(body))
@@ -2223,9 +2376,11 @@ class Summarizer(Evaluator):
                         if isinstance(x, ast.Name) and isinstance(
                                 x.ctx, ast.Store):
                             assigned.add(x.id)
+        assigned |= set(list_names)
         newvals = {}
         # explicit comprehension: fresh list + one append
         done_app = set()
+        had_events = set()
         for name in sorted(appenders):
             hits = []
             for s, o in fall_states:
@@ -2233,10 +2388,12 @@ class Summarizer(Evaluator):
                        and e[1] == name]
                 if evs:
                     hits.append((s, evs))
+                    had_events.add(name)
             prek = key(pre.env[name])
+            startk = key(body_st0.get(name, pre.env[name]))
             changed = [(s, s.env.get(name)) for s, o in fall_states
                        if s.env.get(name) is not None
-                       and key(s.env[name]) != prek]
+                       and key(s.env[name]) != startk]
             if has_break:
                 continue
             if len(hits) == 1 and len(hits[0][1]) == 1 and not changed:
@@ -2271,7 +2428,7 @@ class Summarizer(Evaluator):
                             (e[2],), ()), e[3])
         for s, o in fall_states:
             s.trace[:] = [e for e in s.trace if e[0] != 'append']
-        for name in sorted(appenders - done_app):
+        for name in sorted(had_events - done_app):
             if name not in dictb:
                 # appended to in a way that is not a comprehension
                 newvals[name] = ('changed', key(pre.env[name]), 'loop',
@@ -2300,6 +2457,10 @@ class Summarizer(Evaluator):
                 newvals[name] = e if not prev else b_not(e)
         for name in sorted(assigned | set(newvals)):
             newv = newvals.get(name)
+            if newv is None and name in pre.env and not has_break \
+                    and name not in extra_assigned and is_for:
+                newv = self._seq_accumulate(name, pre, body_st0, fall_states,
+                                            gens_key, path_lits)
             if newv is None and name in pre.env and not has_break \
                     and name not in extra_assigned:
                 pre_p = to_poly(pre.env[name])
@@ -2379,16 +2540,32 @@ class Summarizer(Evaluator):
 
     def st_For(self, n, st):
         elts = self._enumerable(n.iter, st) if isinstance(
-            n.iter, (ast.Tuple, ast.List)) else None
+            n.iter, (ast.Tuple, ast.List, ast.Constant)) else None
+        if elts is None and isinstance(n.iter, ast.Call):
+            # range(<constant up to 4>): its body that many times
+            r = self._enumerable(n.iter, st)
+            if r is not None and len(r) <= 4:
+                elts = r
         if elts is not None and elts:
             return self._unrolled(n, elts, st)
         if isinstance(n.iter, ast.Name) and n.iter.id in st.env:
             # a local bound to a spelled-out tuple/list
             vk = key(st.env[n.iter.id])
-            if vk[0] in ('tuple', 'list') and 0 < len(vk[1]) <= 8:
+            if vk[0] in ('tuple', 'list') and 0 < len(vk[1]) <= 12:
                 return self._unrolled(n, [('key', x) for x in vk[1]], st)
         it_node, target, body = n.iter, n.target, n.body
         idx_name, start = None, None
+        items = self._items_iter(it_node, target)
+        if items is not None:
+            mp, kt, vt = items
+            it = self.k(mp, st)
+            base = ('bv', self.depth)
+            gens_key = ((base, it, ()),)
+
+            def bind_items(body_st):
+                self._bind_target_value(kt, base, body_st)
+                self._bind_target_value(vt, ('sub', it, base), body_st)
+            return self._loop(n, st, gens_key, bind_items, body=body)
         if isinstance(it_node, ast.Call) and isinstance(
                 it_node.func, ast.Name) and it_node.func.id == 'enumerate' \
                 and 'enumerate' not in st.env and not it_node.keywords \
